@@ -112,8 +112,14 @@ def run_case(case, tmp):
     with Dataset(tpl, "w") as ds:
         for d, n in zip(dims, shape):
             ds.createDimension(d, n)
-            v = ds.createVariable(d, "f8", (d,))
-            v[:] = numpy.arange(n) * 1.5 + 0.25
+            if case.get("packed_dims"):
+                # CF-packed coordinates: 16-bit integers with scale_factor / add_offset (the library unpacks on reading, packs on writing)
+                v = ds.createVariable(d, "i2", (d,))
+                v.setncattr("scale_factor", 0.5)
+                v.setncattr("add_offset", 10.0)
+            else:
+                v = ds.createVariable(d, "f8", (d,))
+            v[:] = numpy.arange(n) * 1.5 + 0.25 + (10.0 if case.get("packed_dims") else 0.0)
             v.setncattr("units", "m_" + d)
         tv = ds.createVariable("tplvar", "f8", tuple(dims))
         tv[:] = numpy.zeros(shape)
@@ -125,6 +131,8 @@ def run_case(case, tmp):
         w = outcome(lambda: EEMSWrite("w", [], lineno=5).execute(OutFileName=path, OutFieldNames=cols, DimensionFileName=tpl, DimensionFieldName="tplvar"))
         out = {"write": {k: v for k, v in w.items() if k != "value"}, "inputs_before": before, "inputs_after": [dump_array(c.result) for c in cols]}
         if w["outcome"] == "return":
+            with Dataset(tpl) as tds:
+                out["template_dims"] = {d: [float(x).hex() for x in tds[d][:].tolist()] for d in dims}
             with Dataset(path) as ds:
                 out["dims"] = {d: {"size": len(ds.dimensions[d]), "values": [float(x).hex() for x in ds[d][:].tolist()],
                                    "units": ds[d].getncattr("units") if "units" in ds[d].ncattrs() else None} for d in dims if d in ds.variables}
@@ -148,6 +156,19 @@ def run_case(case, tmp):
             a = mk(case, shape)
             v = ds.createVariable("V", a.dtype.char, tuple(dims), fill_value=case.get("file_fill"))
             v[:] = a
+        if case.get("via_program"):
+            # through the loader, with the type name spelled as given: the cleaner and the reader must agree on what the name means
+            from mpilot.program import Program, EEMS_NETCDF_LIBRARIES
+
+            extra = "".join(', %s = %s' % (k, v) for k, v in case.get("params", {}).items() if k != "DataType")
+            src = 'R = EEMSRead(InFileName = "%s", InFieldName = V, DataType = "%s"%s)\n' % (path, case["spelled"], extra)
+
+            def go():
+                prog = Program.from_source(src, libraries=EEMS_NETCDF_LIBRARIES, working_dir=tmp)
+                prog.run()
+                return dump_array(prog.commands["R"].result)
+
+            return outcome(go)
         kw = {"InFileName": path, "InFieldName": case.get("field", "V")}
         args = []
         for k, v in case.get("params", {}).items():
